@@ -104,6 +104,17 @@ def special_jobs(ck):
                     break
             out.append(('special/array-fill-v%d-slack%d' % (variant, k), array_fill_source(n, variant)))
         notes['array-fill-%d' % variant] = {'stack_words': used, 'reserve': reserve, 'image_words': nwords, 'largest_total': n + 3}
+    # arrays that do NOT fit: the image, the cells and the reserved words exceed the memory.  The X definition knows no
+    # memory size, so these are well-defined programs; a compiler for this machine must reject them (a binary whose arrays
+    # overlap its own code violates C08 and C01).  Sizes just above the largest fitting size and far above it.
+    for variant in (0, 1):
+        fit = notes.get('array-fill-%d' % variant)
+        if isinstance(fit, dict) and fit.get('largest_total'):
+            n0 = fit['largest_total'] - 3
+            for over in (fit['stack_words'] + 1 + 3, 2000, MEMW - n0 - 12):
+                out.append(('special/array-too-large-v%d-over%d' % (variant, over), array_fill_source(n0 + over, variant)))
+    out.append(('special/array-larger-than-memory', 'val exit = 0; val put = 1;\narray a[199990];\nproc main() is { a[0] := 65; a[1] := 66; put(a[0], 0); put(a[1], 0); exit(a[1] - a[0]) }\n'))
+    out.append(('special/two-arrays-larger-than-memory', 'val exit = 0;\narray a[120000]; array b[80010];\nproc main() is { a[0] := 1; b[0] := 2; exit(a[0] + b[0]) }\n'))
     # recursion up to the stack budget (frames made large by locals so that the depth stays below XSem's bound)
     for nlocals in (150, 1):
         ra, nw, sp0 = measure(deep_source(10, nlocals))
